@@ -39,6 +39,15 @@ impl<const B: Word> Repr<B> {
             }
         };
 
+        // infinities are printed as "inf" / "-inf" (for radix >= 24 these letters are digits)
+        if B < 24 && src == "inf" {
+            let repr = match sign {
+                Sign::Positive => Self::infinity(),
+                Sign::Negative => Self::neg_infinity(),
+            };
+            return Ok((repr, 0));
+        }
+
         // determine the position of scale markers
         let has_prefix = src.starts_with("0x") || src.starts_with("0X");
         let scale_pos = match B {
